@@ -66,7 +66,7 @@ theorem chunked_read_then_drain (cs : List Spec.SentChunk) (zero after : Bytes) 
 
 /-- non-vacuity: unread chunked body followed by a request. -/
 example :
-    (handle {} default default false ⟨0, 0, 1, .drop⟩ (.chunked none)
+    (handle {} default default false ⟨0, 0, 1, .drop, false⟩ (.chunked none)
       (Spec.renderChunked [⟨b!"5", [], b!"hello"⟩] b!"0" ++ b!"GET /next HTTP/1.1\r\n\r\n") .eof).2.1
       = b!"GET /next HTTP/1.1\r\n\r\n" := by decide
 
